@@ -528,6 +528,56 @@ func registerReflectModel(e *Engine) {
 		st.rpanic("reflect: call of reflect.Value.IsNil on %s Value", rkNames[v.Kind])
 		return nil
 	})
+	vm("IsZero", func(st *State, v *RVal, a []Value) Value {
+		if v.Kind == rkInvalid {
+			st.rpanic("reflect: call of reflect.Value.IsZero on zero Value")
+		}
+		var isZero func(p Value) *Term
+		isZero = func(p Value) *Term {
+			switch x := p.(type) {
+			case *Term:
+				switch x.Sort {
+				case SBool:
+					return Not(x)
+				case SString:
+					return Eq(x, StrT(""))
+				case SFP:
+					// +0 only (IsZero compares the bits)
+					return mk(SBool, 0, "(and (fp.isZero %s) (not (fp.isNegative %s)))", x.S, x.S)
+				case SBV:
+					return Eq(x, &Term{S: fmt.Sprintf("(_ bv0 %d)", x.W), Sort: SBV, W: x.W, Const: true, CI: big.NewInt(0)})
+				}
+				return Eq(x, IntT64(0))
+			case *IfaceV:
+				return BoolT(x.T == nil)
+			case *PtrV:
+				return BoolT(x.Obj == nil)
+			case *FuncV:
+				return BoolT(x.IsNil())
+			case *SliceV:
+				return BoolT(x.Obj == nil)
+			case *MapV:
+				return BoolT(x.Obj == nil)
+			case *ChanV:
+				return BoolT(x.Obj == nil)
+			case *StructV:
+				r := TrueT
+				for _, f := range x.F {
+					r = And(r, isZero(f))
+				}
+				return r
+			case *ArrayV:
+				r := TrueT
+				for _, f := range x.E {
+					r = And(r, isZero(f))
+				}
+				return r
+			}
+			st.unsupported("reflect.Value.IsZero on %T", p)
+			return nil
+		}
+		return isZero(st.rpayload(v))
+	})
 	vm("SetInt", func(st *State, v *RVal, a []Value) Value {
 		st.rsettable(v, "SetInt")
 		st.rkindCheck(v, "SetInt", isSignedKind(v.Kind))
